@@ -84,6 +84,8 @@ def _fault_fs(s, task, call, path):
             continue
         if task.op_fs != f['n']:
             continue
+        if f.get('calls') and call not in f['calls']:
+            continue
         f['done'] = True
         f['where'] = [call, _short(path)]
         s.fire('oserr')
@@ -197,9 +199,12 @@ class SimConn:
         exc = _fault_sql(s, task, stmt) if s.faults else None
         s.seam('sql', stmt[:24])
         if exc is not None:
-            if stmt.startswith('COMMIT') and self.real.in_transaction:
-                # SQLite rolls the transaction back itself on IOERR/FULL at commit
+            if stmt.startswith(('COMMIT', 'ROLLBACK')) and self.real.in_transaction:
+                # SQLite rolls the transaction back itself on IOERR/FULL at
+                # commit; a ROLLBACK that reports an error has still ended the
+                # transaction
                 self.real.execute('ROLLBACK')
+                s.probe('commit_failed' if stmt.startswith('COMMIT') else 'rollback_failed')
                 s.db_released(self.db)
             raise exc
         deadline = None
